@@ -293,7 +293,7 @@ PROPS["C05"] = dict(
     floors={"quick": {"table_replace_under_collision": 20, "table_states_with_25_or_more_bindings": 20,
                       "cross_kind_assigns": 10, "same_kind_assigns": 10, "copies": 20, "clears": 20,
                       "sort_swap_moves": 10, "concats": 10, "box_container_operations": 200,
-                      "box_containers_deleted": 20, "box_containers_left_to_the_collector": 20, "box_slots_given_what_they_hold": 100, "cases_with_collector_stopped": 5, "tree_updates": 20}},
+                      "box_containers_deleted": 20, "box_containers_left_to_the_collector": 20, "box_slots_given_what_they_hold": 100, "cases_with_collector_stopped": 5, "tree_updates": 20, "retyping_assigns": 2000, "retyping_assigns_over_two_or_more_elements": 1000}},
     rule="case = 8 containers driven through 40-200 (thorough: up to 540) random operations with the ledger and model "
          "oracles after every operation, or one Box container through 40-160 operations; distinct = hash of the "
          "operation list; non-trivial = at least 20 operations",
